@@ -343,6 +343,54 @@ Definition unmarshal (b : bytes) : res (list proto) := fst (fst (unmarshal_full 
 Definition unmarshal_alloc (b : bytes) : N := snd (fst (unmarshal_full b)).
 
 (* ------------------------------------------------------------------ *)
+(* The per-protocol entry points: Bitswap / IpfsGatewayHttp / GraphsyncFilecoinV1 /
+   Unknown .ReadFrom and .UnmarshalBinary called directly (not through Metadata) *)
+
+Inductive pkind := KBitswap | KGateway | KGraphsync | KUnknown.
+
+Definition kind_of (p : proto) : pkind :=
+  match p with
+  | PBitswap => KBitswap | PGateway => KGateway
+  | PGraphsync _ _ _ => KGraphsync | PUnknown _ _ => KUnknown
+  end.
+
+(* X.ReadFrom(reader over data): result with bytes consumed, ghost allocation.
+   Unknown.ReadFrom takes whatever code it finds (also a registered one). *)
+Definition proto_read (k : pkind) (data : bytes) : res (proto * nat) * N :=
+  match k with
+  | KBitswap => read_bitswap data
+  | KGateway => read_gateway data
+  | KGraphsync => read_graphsync data
+  | KUnknown => read_unknown data
+  end.
+
+(* X.UnmarshalBinary(data).  Bitswap and the gateway compare the whole input with their
+   fixed encoding; graphsync-filecoin reads and then rejects trailing bytes (C11-fix-2);
+   Unknown reads and IGNORES whatever follows the declared payload. *)
+Definition proto_unmarshal (k : pkind) (data : bytes) : res proto :=
+  match k with
+  | KBitswap => if bytes_eqb data (enc id_bitswap) then Ok PBitswap else Err EMismatch
+  | KGateway => if bytes_eqb data (enc id_gateway ++ enc 0) then Ok PGateway else Err EMismatch
+  | KGraphsync =>
+    match fst (read_graphsync data) with
+    | Ok (p, n) => if Nat.eqb n (length data) then Ok p else Err ETrailing
+    | Err c => Err c
+    | Panic c => Panic c
+    end
+  | KUnknown =>
+    match fst (read_unknown data) with
+    | Ok (p, _) => Ok p
+    | Err c => Err c
+    | Panic c => Panic c
+    end
+  end.
+
+(* Metadata.Equal: same number of protocols, pairwise the same ID and the same encoding *)
+Definition proto_equal (a b : proto) : bool :=
+  (id_of a =? id_of b) && bytes_eqb (enc_proto a) (enc_proto b).
+Definition equal (m1 m2 : list proto) : bool := list_eqb proto_equal m1 m2.
+
+(* ------------------------------------------------------------------ *)
 (* well-formedness of protocol values (what a caller may hand to New) *)
 
 Definition known_id (c : N) : bool := (c =? id_bitswap) || (c =? id_graphsync) || (c =? id_gateway).
@@ -522,6 +570,27 @@ Definition dec_case_ok (c : dec_case) : bool :=
       && match r with Ok m => bytes_eqb (marshal m) b | _ => true end
     end
   end.
+
+(* PDecCase: protocol kind, entry point (false = UnmarshalBinary, true = ReadFrom), input,
+   observed result, observed byte count (ReadFrom, on success) *)
+Inductive pdec_case := PDecCase (k : pkind) (readfrom : bool) (b : bytes) (d : obs (list proto)) (n : nat).
+
+Definition pdec_case_ok (c : pdec_case) : bool :=
+  match c with
+  | PDecCase k false b d _ =>
+    obs_match protos_eqb (match proto_unmarshal k b with Ok p => Ok [p] | Err e => Err e | Panic e => Panic e end) d
+  | PDecCase k true b d n =>
+    match fst (proto_read k b) with
+    | Ok (p, n') => obs_match protos_eqb (Ok [p]) d && Nat.eqb n n'
+    | Err e => obs_match protos_eqb (Err e) d
+    | Panic e => obs_match protos_eqb (Panic e) d
+    end
+  end.
+
+(* EqCase: two protocol lists in construction order, observed New(a).Equal(New(b)) *)
+Inductive eq_case := EqCase (a b : list proto) (r : bool).
+Definition eq_case_ok (c : eq_case) : bool :=
+  match c with EqCase a b r => Bool.eqb (equal (new a) (new b)) r end.
 
 Inductive lim_case := LimGsLink (n : N) (ok : bool).
 Definition lim_case_ok (c : lim_case) : bool :=
